@@ -323,7 +323,24 @@ def key_outside_table(obj):
     return False
 
 
+REBIND = set()       # classes whose reader rebinds kmip_version from their own ProtocolVersion item (headers)
+
+
+def announces_other_version(cname, bs, v):
+    """the structure starts with a well-formed ProtocolVersion item that names a version other than v"""
+    if cname not in REBIND:
+        return False
+    b = bs[8:]
+    if len(b) >= 40 and b[:8] == bytes.fromhex('4200690100000020') and b[8:16] == bytes.fromhex('42006a0200000004') \
+            and b[24:32] == bytes.fromhex('42006b0200000004'):
+        major, minor = struct.unpack('!i', b[16:20])[0], struct.unpack('!i', b[32:36])[0]
+        return 10 * major + minor != v or not (0 <= minor <= 9)
+    return False
+
+
 def scase(v, tag, cname, bs, obj, rest, rew):
+    if announces_other_version(cname, bs, v):
+        return None
     if obj is not None and key_outside_table(obj):
         return None
     if obj is not None and boolean_with_odd_length(obj):
@@ -346,9 +363,11 @@ def struct_cases(ctx, doc, oracle, only=None):
     schema = sg.Schema(doc)
     cases, meta = [], []
     budget_valid = 10 if quick else 64
-    n_mut_src = 2 if quick else 6
+    n_mut_src = 2 if quick else 10
     per_class = {}
     KEY_TABLES.clear()
+    REBIND.clear()
+    REBIND.update(c['name'] for c in doc['classes'] if c.get('rebind') is not None)
     for cdoc in doc['classes']:
         for it in cdoc['rd']:
             if it.get('by'):
@@ -383,7 +402,7 @@ def struct_cases(ctx, doc, oracle, only=None):
             items_v = schema.active(cname, v)
             full_counts = [1 if it['mult'] != 'Many' else 2 for it in items_v]
             full_obj, _ = impl_read(cls, sg.encode(tag, gen.struct(cname, v, 0, full_counts)), v)
-            for counts in vectors:
+            for counts in (vectors if quick else vectors * 3):      # thorough: three value draws per occurrence vector
                 if full_obj is not None:
                     oracle.presence_pattern(cname, cls, v, full_obj, items_v, counts,
                                             {it['field']: n for it, n in zip(items_v, counts)})
@@ -394,7 +413,7 @@ def struct_cases(ctx, doc, oracle, only=None):
                 rew = impl_write(obj, v) if obj is not None else None
                 sc = scase(v, tag, cname, bs, obj, rest, rew)
                 if sc is None:
-                    ctx.count('struct.k-skipped.key-outside-table')
+                    ctx.count('struct.k-skipped.outside-modelled-domain')
                     sc = SKIP
                 cases.append(sc)
                 meta.append({'class': cname, 'v': v, 'kind': 'valid', 'value': sg.describe(val), 'hex': bs.hex(),
@@ -426,7 +445,7 @@ def struct_cases(ctx, doc, oracle, only=None):
                     rew = impl_write(obj, v) if obj is not None else None
                     sc = scase(v, tag, cname, bs, obj, rest, rew)
                     if sc is None:
-                        ctx.count('struct.k-skipped.key-outside-table')
+                        ctx.count('struct.k-skipped.outside-modelled-domain')
                         sc = SKIP
                     cases.append(sc)
                     meta.append({'class': cname, 'v': v, 'kind': 'mutated:' + label, 'value': sg.describe(val), 'hex': bs.hex(),
@@ -447,7 +466,7 @@ def struct_cases(ctx, doc, oracle, only=None):
                     rew = impl_write(obj, v) if obj is not None else None
                     sc = scase(v, tag, cname, bs, obj, rest, rew)
                     if sc is None:
-                        ctx.count('struct.k-skipped.key-outside-table')
+                        ctx.count('struct.k-skipped.outside-modelled-domain')
                         sc = SKIP
                     cases.append(sc)
                     meta.append({'class': cname, 'v': v, 'kind': 'cross-version:%d' % v2, 'value': sg.describe(val), 'hex': bs.hex(),
@@ -657,6 +676,16 @@ def probes(ctx, oracle):
                           {'class': name, 'build': 'template attribute [Cryptographic Algorithm=AES, Cryptographic Length=256]',
                            'encode_1.2_before': before.hex(), 'encode_1.2_after_a_2.0_encoding': after.hex() if after else None},
                           '%s: encoding under KMIP 2.0 retags the caller\'s attribute values; a later 1.2 encoding differs' % name)
+    # a response header that carries a server correlation value (decoded by read(), never written by write())
+    from kmip.core.messages import messages as _messages
+    for v in (14, 20):
+        body = (sg.wrap(0x420069, [sg.enc_prim(0x42006a, 'PInt', v // 10), sg.enc_prim(0x42006b, 'PInt', v % 10)]) +
+                sg.enc_prim(0x420092, 'PDate', 1) + sg.enc_prim(0x420106, 'PText', 'abc') + sg.enc_prim(0x42000d, 'PInt', 1))
+        bs = sg.hdr(0x42007a, 1, len(body)) + body
+        obj, rest = impl_read(_messages.ResponseHeader, bs, v)
+        ctx.count('probe.responseheader-correlation.%s' % ('accepted' if obj is not None else 'refused'))
+        if obj is not None:
+            oracle.accepted('ResponseHeader', _messages.ResponseHeader, v, bs, obj, rest, True)
     # constructible values that must survive encode -> decode (found while building the translator)
     for name, mk, v in (
         ('ActivateRequestPayload', lambda: payloads.ActivateRequestPayload(), 10),
